@@ -261,7 +261,17 @@ def main(argv: List[str]) -> int:
         if not errors and args.model:
             for model in args.model:
                 if args.target:
-                    translate(library_ast, model, "sympy", options, args.outdir)
+                    try:
+                        translated = translate(library_ast, model, "sympy", options, args.outdir)
+                    # flattening inside the generator can throw Exception in several places
+                    except Exception:  # pylint: disable=broad-except
+                        if log.level is logging.DEBUG:
+                            log.exception("Problem generating SymPy model %s", model)
+                        else:
+                            log.error("Problem generating SymPy model %s", model)
+                        translated = False
+                    if not translated:
+                        errors += 1
                 elif args.model:
                     try:
                         _ = flatten_class(library_ast, model)
